@@ -685,7 +685,10 @@ def _concrete_probe(ob, p, env, res, tag):
             if bad:
                 res['errors'].append(f"encoding mismatch ({tag}): {name}: symbolic {sv} vs concrete {cv}; env={env}")
                 break
+    known = getattr(ob, 'known_claims', None) or []
     for name, ok, d in S.claims:
+        if not ok and any(name == k or name.startswith(k) for k in known):
+            continue        # listed known finding: reported once through the solver path, not by every probe
         if not ok:
             # a float probe only counts when the solver confirms, on this very instance, that the
             # claim fails by a margin (rules out rounding artefacts at ill-conditioned inputs)
@@ -769,6 +772,13 @@ def _confirm_probe(p, env, fe, name):
     return 'solver-unknown'
 
 
+def _n_new(res, ob):
+    """violations that are not listed as known findings (those never stop the exploration)"""
+    pats = getattr(ob, 'known_claims', None) or []
+    return sum(1 for v in res['violations']
+               if not any(v['claim'] == p or v['claim'].startswith(p) for p in pats))
+
+
 def run_obligation(ob, seed=0, timeout_scale=1.0):
     t0 = time.time()
     res = dict(id=ob.id, verdict='held', claims=[], paths=0, decisions=0, queries=0,
@@ -846,7 +856,7 @@ def run_obligation(ob, seed=0, timeout_scale=1.0):
                                                       s=0.0, engine='replay'))
                         else:
                             res['errors'].append(f"path {pi_}: symbolic {p.exc[1]} vs concrete {e2!r}\n{p.exc[2]}")
-                    if len(res['violations']) >= 2:
+                    if _n_new(res, ob) >= 2:
                         stop = True
                         break
                     continue
@@ -874,7 +884,7 @@ def run_obligation(ob, seed=0, timeout_scale=1.0):
                         if _concrete_probe(ob, p, env, res, 'random-probe'):
                             nv += 1
                     res['validated'] += nv
-                    if res['violations']:
+                    if _n_new(res, ob):
                         stop = True
                         break
                 # solver: groups of claims first, then one query per claim
@@ -902,7 +912,7 @@ def run_obligation(ob, seed=0, timeout_scale=1.0):
                                 pre[nm] = ('unsat', round(secs / len(grp), 3), eng)
                 probed_more = False
                 for name, claim in p.sess.claims:
-                    if len(res['violations']) >= 2:
+                    if _n_new(res, ob) >= 2:
                         break
                     sc = z3.simplify(claim)
                     if name in pre:
@@ -987,7 +997,7 @@ def run_obligation(ob, seed=0, timeout_scale=1.0):
                     elif verdict == 'unknown':
                         res['undecided'].append(name)
                     res['claims'].append(entry)
-                if len(res['violations']) >= 2:
+                if _n_new(res, ob) >= 2:
                     res['notes'].append("stopped after 2 reproduced violations")
                     stop = True
                     break
